@@ -73,6 +73,16 @@ static inline result_t DF_read(const struct DF* f, const SymbolString* data, siz
   return (result_t)g_read_result[k];
 }
 static inline size_t DF_getCount(const struct DF* f, PartType part, const char* name) { return g_master_fields; }
+/* ---- environment of the chain id parser (fragment of Message::create): the id column as a sequence of up to CH_CAP entries "hexbytes[:length]" ---- */
+#define ENV_NPOS ((size_t)-1)
+unsigned g_ids_left;
+static inline _Bool env_next_id(void) { if (g_ids_left == 0) return 0; g_ids_left = g_ids_left - 1; return 1; }
+static inline size_t env_length_pos(void) { return nondet_bool() ? ENV_NPOS : (size_t)1; }
+static inline unsigned env_parse_len(unsigned max, result_t* res) { unsigned v = nondet_uint(); if (nondet_bool()) { *res = RESULT_ERR_INVALID_NUM; return 0; } __CPROVER_assume(v <= max); *res = RESULT_OK; return v; }
+static inline result_t env_parse_id(vsym* id) { if (nondet_bool()) return RESULT_ERR_INVALID_ARG; size_t k = nondet_size(); __CPROVER_assume(k <= 4); for (size_t i = 0; i < 4; i++) { if (i < k) vsym_push_back(id, nondet_sym()); } return RESULT_OK; }
+static inline void idvec_push(struct idvec* v, const vsym* id) { __CPROVER_assert(v->n < CH_CAP, "model capacity: chain parts"); if (v->n < CH_CAP) { v->e[v->n] = *id; v->n = v->n + 1; } }
+static inline void lenvec_push(struct lenvec* v, size_t len) { __CPROVER_assert(v->n < CH_CAP, "model capacity: chain parts"); if (v->n < CH_CAP) { v->e[v->n] = len; v->n = v->n + 1; } }
+#define IDS_FRONT_SIZE(v) ((v)->e[0].n)
 #include "gen_protos.h"
 #include "gen_funcs.inc"
 
@@ -257,4 +267,22 @@ void h_decode(void) {
     CANARY("slave part decoded");
   } else { __CPROVER_assert(g_read_calls == k, "[C09] the slave part is not decoded when only master data / a master field is asked for"); }
   if (part == pt_any && fieldIndex < 0 && g_read_result[0] == RESULT_OK && g_read_result[1] == RESULT_OK) { __CPROVER_assert(r == RESULT_OK, "[C09] both parts decoded: success"); CANARY("both parts"); }
+}
+
+/* the chain well-formedness the harnesses above assume is what Message::create establishes when it accepts the id column */
+void h_create_chain(void) {
+  vsym id; struct idvec ids; struct lenvec lens; size_t maxLength = 0; _Bool passive = nondet_bool();
+  id.n = 2; id.d[0] = nondet_sym(); id.d[1] = nondet_sym(); ids.n = 0; lens.n = 0;          /* PB SB parsed before */
+  g_ids_left = nondet_uint(); __CPROVER_assume(g_ids_left <= CH_CAP);                      /* entries of the id column (an empty column still gives one pass) */
+  result_t r = Message_create_chainIds(&id, passive, &ids, &lens, &maxLength);
+  if (r == RESULT_OK) {
+    __CPROVER_assert(ids.n >= 1 && lens.n == ids.n, "[C09] one id and one length per chain part");
+    size_t k = nondet_size(), j = nondet_size(); __CPROVER_assume(k < ids.n && k < CH_CAP);
+    __CPROVER_assert(ids.e[k].n == ids.e[0].n && ids.e[0].n >= 2, "[C08,C09,C20] all part ids of a chain have the same length (ChainedMessage::checkId indexes every part with the length of the first)");
+    __CPROVER_assert(id.n >= 2 && id.n <= ids.e[0].n, "[C09] the common id is a prefix of the part ids");
+    if (j < id.n) __CPROVER_assert(ids.e[k].d[j] == id.d[j], "[C08,C09] every part id starts with the common id (PB SB and the shared id bytes)");
+    __CPROVER_assert(ids.n == 1 || !passive, "[C09] a passive definition cannot be chained");
+    __CPROVER_assert(maxLength <= 255 + MAX_POS, "[C09] the total data length of an accepted chain is limited");
+    if (ids.n == 3 && id.n == 3 && ids.e[0].n == 5) { CANARY("three parts with a shared id byte"); }
+  } else { __CPROVER_assert(r < 0, "[C09] rejection is an error"); }
 }
